@@ -250,6 +250,14 @@ func c04One(c *mon.Ctx, layout string, n int, closed bool, genSeed int64, nq int
 			}
 		}
 		dx, dy := 3.0, -2.0
+		switch genSeed % 4 {
+		case 1:
+			dx, dy = 1e-3, 1.0/3 // inexact additions: moved coordinates are rounded
+		case 2:
+			dx, dy = 0.1, -0.7
+		case 3:
+			dx, dy = 1e15, -1e15
+		}
 		if layout == "huge" {
 			dx, dy = 1e292, -1e292
 		}
@@ -258,10 +266,37 @@ func c04One(c *mon.Ctx, layout string, n int, closed bool, genSeed int64, nq int
 			moved[i] = geometry.Point{X: p.X + dx, Y: p.Y + dy}
 		}
 		mref := build(moved, IdxCfg{})
+		// segment search of a moved series against brute force over the moved points
+		msegs := make([]geometry.Segment, mref.line.NumSegments())
+		for i := range msegs {
+			msegs[i] = mref.line.SegmentAt(i)
+		}
 		for _, ic := range cfgs[1:] {
 			s := build(pts, ic)
 			o := build(other, ic)
 			ms := shp{s.line.Move(dx, dy), s.poly.Move(dx, dy)}
+			for k := 0; k < 12 && len(moved) > 0; k++ {
+				v := moved[r.Intn(len(moved))]
+				q := geometry.Rect{Min: v, Max: v}
+				if k%3 == 1 {
+					w := moved[r.Intn(len(moved))]
+					q = geometry.Rect{Min: geometry.Point{X: math.Min(v.X, w.X), Y: math.Min(v.Y, w.Y)}, Max: geometry.Point{X: math.Max(v.X, w.X), Y: math.Max(v.Y, w.Y)}}
+				}
+				var want, got []int
+				for i, sg := range msegs {
+					if boxMeets(segBox(sg), q) {
+						want = append(want, i)
+					}
+				}
+				ms.line.Search(q, func(seg geometry.Segment, idx int) bool { got = append(got, idx); return true })
+				sort.Ints(got)
+				c.Eval()
+				c.Count("moved_searches")
+				if fmt.Sprint(got) != fmt.Sprint(want) {
+					c.Violation("move-search", "segment search of a Move()d series differs from brute force over the moved points", mk(ic, q, "Move("+fmt.Sprint(dx, ",", dy)+").Search", fmt.Sprintf("got %v want %v", head(got), head(want))))
+					break
+				}
+			}
 			cmp := func(what string, a, b bool) {
 				c.Eval()
 				c.Count("predicate_comparisons")
@@ -351,6 +386,6 @@ func init() {
 		Rule:        "series of sizes {0..17, 31-34, 63-66, 255-258, 1000, 5000, 65535-65538, 70000} x 10 layouts (uniform, duplicate lattice, horizontal, vertical, all-equal, clustered with outliers, circle, +-8e307, diagonal, wide zigzag) x open/closed x {none, R-tree, quadtree} x MinPoints {1, n, n+1, 64} x query rectangles (infinite, horizontal/vertical strips through a vertex, degenerate at a vertex, quadrant midlines, vertex-spanned, disjoint, corner-touching, small windows) x stop position {1,2,3,last}; plus oracle-free comparison of predicates and of Move()d shapes against index-free shapes. Non-trivial = distinct (series, query) whose expected result is a non-empty proper subset of the segments.",
 		Assumptions: []string{"oracle: brute force over NumSegments/SegmentAt of the index-free series with the harness' own closed-box test", "the index bytes are not decoded: a layout change that keeps Search correct must not alarm"},
 		Run:         c04Run,
-		MustSee:     []string{"indexed_RTree", "indexed_QuadTree", "unindexed", "indexed_over_65536", "early_stops", "searches_with_hits", "predicate_comparisons", "series_big"},
+		MustSee:     []string{"indexed_RTree", "indexed_QuadTree", "unindexed", "indexed_over_65536", "early_stops", "searches_with_hits", "predicate_comparisons", "series_big", "moved_searches"},
 	})
 }
